@@ -94,6 +94,7 @@ type lenCtx struct {
 	lowerC           map[string]int64
 	inFits           bool
 	inInd            bool
+	writeMemo        map[*ssa.FieldAddr]bool
 	defFacts         []lin // defining facts of division / shift atoms
 	strides          []lin
 	stridesDone      bool
@@ -1589,10 +1590,78 @@ func (lc *lenCtx) forwarded(load *ssa.UnOp) ssa.Value {
 			}
 		}
 	}
-	if n == 1 && instrDominates(only, load) {
+	if n == 1 && instrDominates(only, load) && !lc.mayWriteField(fa) {
 		return only.Val
 	}
 	return nil
+}
+
+// mayWriteField: some call in the function may write the field behind fa: a circl callee whose
+// mod-set contains that field (or something unrecognisable) of a parameter bound to the same struct
+// pointer, or any other callee that receives the struct pointer itself.
+func (lc *lenCtx) mayWriteField(fa *ssa.FieldAddr) bool {
+	if r, ok := lc.writeMemo[fa]; ok {
+		return r
+	}
+	if lc.writeMemo == nil {
+		lc.writeMemo = map[*ssa.FieldAddr]bool{}
+	}
+	strip := func(v ssa.Value) ssa.Value {
+		for {
+			switch x := v.(type) {
+			case *ssa.ChangeType:
+				v = x.X
+			case *ssa.Convert:
+				v = x.X
+			default:
+				return v
+			}
+		}
+	}
+	base := strip(fa.X)
+	name := fieldName(fa)
+	res := false
+	for _, b := range lc.f.Blocks {
+		for _, in := range b.Instrs {
+			ci, ok := in.(ssa.CallInstruction)
+			if !ok {
+				continue
+			}
+			c := ci.Common()
+			if _, isB := c.Value.(*ssa.Builtin); isB {
+				continue
+			}
+			var args []ssa.Value
+			if c.IsInvoke() {
+				args = append(args, c.Value)
+			}
+			args = append(args, c.Args...)
+			passes := -1
+			for i, a := range args {
+				if strip(a) == base {
+					passes = i
+				}
+			}
+			if passes < 0 {
+				continue
+			}
+			cal := c.StaticCallee()
+			if cal == nil || !inlinable(cal) {
+				res = true
+				continue
+			}
+			for _, w := range lc.p.Mod().of(cal) {
+				if w.Root != fmt.Sprintf("param#%d", passes) {
+					continue
+				}
+				if t := topField(w.Via); t == name || t == "*" || t == "" {
+					res = true
+				}
+			}
+		}
+	}
+	lc.writeMemo[fa] = res
+	return res
 }
 
 // siteBinding: what one tainted call site fixes about its callee's parameters.
